@@ -198,18 +198,20 @@ Proof.
   assert (G3 : g_agg_any (c_g c) = true) by (rewrite G; reflexivity).
   assert (G4 : g_bitfield (c_g c) = true) by (rewrite G; reflexivity).
   assert (G5 : g_equals (c_g c) = true) by (rewrite G; reflexivity).
+  assert (ND : net_delay_returns c e = true).
+  { unfold net_delay_returns. rewrite G. cbn [g_latency all_guards]. rewrite !orb_true_r. reflexivity. }
   destruct m as [p|v|s|t|h|k]; cbn [handle].
   - unfold srv_propose. destruct ctx_ok; cbn [negb]; [|discriminate].
     destruct (p_block p) as [b|] eqn:Eb.
-    + unfold proposal_from_proto, block_from_proto. rewrite Eb.
+    + unfold proposal_from_proto, block_from_proto. rewrite Eb, ND.
       apply on_propose_np; assumption.
     + rewrite G. cbn. discriminate.
-  - unfold srv_vote. destruct ctx_ok; cbn [negb]; [|discriminate].
+  - unfold srv_vote. destruct ctx_ok; cbn [negb]; [|discriminate]. rewrite ND. cbn [negb].
     unfold pcert_from_proto, new_partial_cert. rewrite G. cbn [g_pcert all_guards].
     destruct (sig_from_proto (v_sig v)); apply on_vote_np; assumption.
-  - unfold srv_new_view, on_new_view. destruct ctx_ok; cbn [negb]; [|discriminate].
+  - unfold srv_new_view, on_new_view. destruct ctx_ok; cbn [negb]; [|discriminate]. rewrite ND. cbn [negb].
     apply advance_view_np; assumption.
-  - unfold srv_timeout. apply on_timeout_np; assumption.
+  - unfold srv_timeout. rewrite ND. cbn [negb]. apply on_timeout_np; assumption.
   - discriminate.
   - unfold srv_contribution. apply on_contribution_np; assumption.
 Qed.
@@ -340,6 +342,7 @@ Proof.
     2:{ destruct (g_srv_block (c_g c)); discriminate. }
     apply andb_true_iff in H. destruct H as [Hq Ha].
     unfold proposal_from_proto, block_from_proto. rewrite Eb.
+    destruct (net_delay_returns c e); [|discriminate].
     unfold on_propose. cbn [dp_block dp_agg db_qc].
     assert (Hqc : verify_qc c (qc_from_proto (b_qc b)) <> Ok true).
     { destruct (b_qc b) as [q|]; [apply verify_qc_bad; exact Hq|]. cbn. discriminate. }
@@ -354,6 +357,7 @@ Proof.
                   (match p_agg p with Some a => Some (agg_from_proto (Some a)) | None => None end) Hqc) as Hv.
     destruct (verify_any_qc c e _ _) as [[|]| |]; try congruence; discriminate.
   - unfold srv_vote. destruct ctx_ok; cbn [negb]; [|discriminate].
+    destruct (net_delay_returns c e); cbn [negb]; [|discriminate].
     unfold pcert_from_proto, new_partial_cert.
     pose proof (auth_verify_bad c (v_sig v) H) as A.
     destruct (sig_from_proto (v_sig v)) eqn:E.
@@ -363,8 +367,10 @@ Proof.
       unfold on_vote. destruct (e_vote_reach e); cbn [negb]; [|discriminate].
       destruct (auth_verify c None) as [[|]| |]; try congruence; discriminate.
   - unfold srv_new_view, on_new_view. destruct ctx_ok; cbn [negb]; [|discriminate].
+    destruct (net_delay_returns c e); cbn [negb]; [|discriminate].
     apply (advance_view_bad c (Some s)). exact H.
-  - unfold srv_timeout, on_timeout, verify_timeout, timeout_from_proto. cbn [dtm_viewsig dtm_sync].
+  - unfold srv_timeout. destruct (net_delay_returns c e); cbn [negb]; [|discriminate].
+    unfold on_timeout, verify_timeout, timeout_from_proto. cbn [dtm_viewsig dtm_sync].
     apply andb_true_iff in H. destruct H as [H _]. apply andb_true_iff in H. destruct H as [Hs _].
     pose proof (auth_verify_bad c (tm_viewsig t) Hs) as A.
     destruct (auth_verify c (sig_from_proto (tm_viewsig t))) as [[|]| |]; try congruence; discriminate.
@@ -405,12 +411,16 @@ Definition set_guard (i : nat) (v : bool) (g : guards) : guards :=
     (match i with 5%nat => v | _ => g_agg_sync g end)
     (match i with 6%nat => v | _ => g_cache g end)
     (match i with 7%nat => v | _ => g_bitfield g end)
-    (match i with 8%nat => v | _ => g_equals g end).
+    (match i with 8%nat => v | _ => g_equals g end)
+    (match i with 9%nat => v | _ => g_latency g end).
 
-Definition env_all := Build_env true true true true true true true true.
+Definition env_all := Build_env true true true true true true true true true.
+(* the sender id is outside the latency matrix (0, n+1, 99, 2^32-1, or a Proposer field with the Kauri tree) *)
+Definition env_outside := Build_env true true true true true true true true false.
+Definition mkcfg_lat s kauri g := Build_cfg s false false kauri true 3 g.
 (* a proposal whose block QC agrees with a signed high QC in view and hash but has no signature *)
-Definition env_signed_hq := Build_env true true true true true true true false.
-Definition mkcfg s cache agg g := Build_cfg s cache agg false 3 g.
+Definition env_signed_hq := Build_env true true true true true true true false true.
+Definition mkcfg s cache agg g := Build_cfg s cache agg false false 3 g.
 
 (* one witness per guard: with only that guard removed a wire message (or a nil argument of a
    converter) panics *)
@@ -432,9 +442,16 @@ Definition w_equals' :=
   MPropose (Build_wproposal (Some (Build_wblock (Some (Build_wqc (Some (Some (WMultiE 1 false))) 0 HGenesis)) 2 true true))
                             (Some (Build_wagg [(1, Build_wqc None 0 HGenesis)]
                                               (Some (Some (WMultiE 3 true))) 1))).
-Definition env_unsigned_hq := Build_env true true true false false true true true.
+Definition env_unsigned_hq := Build_env true true true false false true true true true.
 (* a timeout with a valid single BLS view signature from a peer whose id is 0 *)
 Definition w_bitfield := MTimeout (Build_wtimeout 1 None (Some (Some (WBls true 1 true))) None true false false).
+
+(* any message from a peer whose id is outside the latency matrix: an empty new-view, an empty timeout without
+   peer id (the handler goes on with id 0), a proposal whose block names proposer 99 with the Kauri tree *)
+Definition w_lat_newview := MNewView (Build_wsync None None None).
+Definition w_lat_timeout := MTimeout (Build_wtimeout 1 None None None true false false).
+Definition w_lat_propose :=
+  MPropose (Build_wproposal (Some (Build_wblock (Some (Build_wqc None 0 HGenesis)) 1 true true)) None).
 
 Theorem guards_needed :
   handle (mkcfg Ecdsa false false (set_guard 0 false all_guards)) env_all true w_srv_block = Panic /\
@@ -446,7 +463,18 @@ Theorem guards_needed :
   handle (mkcfg Ecdsa true false (set_guard 6 false all_guards)) env_all true w_cache = Panic /\
   handle (mkcfg Bls false false (set_guard 7 false all_guards)) env_all false w_bitfield = Panic /\
   handle (mkcfg Ecdsa false true (set_guard 8 false all_guards)) env_signed_hq true w_equals = Panic /\
-  handle (mkcfg Ecdsa false true (set_guard 8 false all_guards)) env_unsigned_hq true w_equals' = Panic.
+  handle (mkcfg Ecdsa false true (set_guard 8 false all_guards)) env_unsigned_hq true w_equals' = Panic /\
+  handle (mkcfg_lat Ecdsa false (set_guard 9 false all_guards)) env_outside true w_lat_newview = Panic /\
+  handle (mkcfg_lat Ecdsa false (set_guard 9 false all_guards)) env_outside false w_lat_timeout = Panic /\
+  handle (mkcfg_lat Ecdsa true (set_guard 9 false all_guards)) env_outside true w_lat_propose = Panic.
+Proof. vm_compute. repeat split; reflexivity. Qed.
+
+(* with the guard the three messages are handled without delay: nothing in them verifies, they are dropped;
+   and without the latency matrix the unguarded code does not panic on them either *)
+Theorem latency_witnesses_guarded :
+  handle (mkcfg_lat Ecdsa false all_guards) env_outside true w_lat_newview = Ok Dropped /\
+  handle (mkcfg_lat Ecdsa false all_guards) env_outside false w_lat_timeout = Ok Dropped /\
+  handle (mkcfg Ecdsa false false (set_guard 9 false all_guards)) env_outside true w_lat_newview = Ok Dropped.
 Proof. vm_compute. repeat split; reflexivity. Qed.
 
 (* with the nil check in Equals both proposals are rejected without touching the state *)
